@@ -370,6 +370,9 @@ class Check(object):
         for key, what in self.known_hits:
             print('KNOWN-FINDING: property=%s %s' % (self.pid, what))
         nviol = 0
+        if os.environ.get('VERIF_DEBUG'):
+            for key, replay, what in self.violations:
+                print('## %s | %s' % (key, str(what)[:200]))
         for key, replay, what in self.violations:
             h = hashlib.sha1(json.dumps(replay, sort_keys=True, default=str).encode()).hexdigest()[:12]
             path = os.path.join(REPLAYS, '%s-%s.json' % (self.pid, h))
